@@ -75,3 +75,13 @@ Proof. reflexivity. Qed.
    replays that schedule on the real code at every run). *)
 Lemma watchDoneBoundToGeneration_today : gen_watchDoneBoundToGeneration = true.
 Proof. reflexivity. Qed.
+
+(* the source today (repair aaae2e8, F32): setupWatch never creates a watcher.  A watch
+   goroutine that outlives Registry.Unmonitor of the key's last listener (it was loading or
+   between two streams) used to re-create an empty watcher without listeners, which the next
+   subscriber of the key joined instead of loading (unmonitor monitor replays that schedule
+   on the real code at every run).  In the model a watcher epoch starts with a load
+   (Check.agrees_thread from [init []]; GJoin only ever joins a watcher whose values are the
+   truth): that is only true of the code with this flag. *)
+Lemma setupWatchNeverCreatesWatcher_today : gen_setupWatchNeverCreatesWatcher = true.
+Proof. reflexivity. Qed.
